@@ -101,6 +101,7 @@ Inductive outcome := Out (o : list ascii) | Skip.
 
 Definition redact_line (tb : tables) (cs : consts) (c : cfg) (enc : encf) (l : list ascii) : outcome :=
   match parse_line l with
-  | Some t => Out (print (redact_tree tb cs c (real_actions cs c enc) t))
+  | Some t => let t' := redact_tree tb cs c (real_actions cs c enc) t in
+              if printable t' then Out (print t') else Skip
   | None => Skip
   end.
